@@ -220,11 +220,15 @@ Definition safe_int (f : f64) : option Z :=
 
 Definition wrap64 (z : Z) : Z := ((z + 2 ^ 63) mod 2 ^ 64 - 2 ^ 63)%Z.
 
-(* `x as usize` followed by `as f64 == x` (try_to_usize_exact): integral, >= 0 *)
+(* `x as usize` (saturating) followed by `as f64 == x` (try_to_usize_exact): integral and
+   0 <= x <= 2^64; 2^64 itself passes (usize::MAX as f64 = 2^64) as index usize::MAX *)
 Definition to_index (f : f64) : option N :=
   if f_is_integer f then
     match f_trunc_Z f with
-    | Some z => if (z <? 0)%Z then None else Some (Z.to_N z)
+    | Some z => if (z <? 0)%Z then None
+                else if (2 ^ 64 <? z)%Z then None
+                else if (z =? 2 ^ 64)%Z then Some (2 ^ 64 - 1)
+                else Some (Z.to_N z)
     | None => None
     end
   else None.
